@@ -131,6 +131,29 @@ def r16_2(ctx, b, m):
             loc = b.loc(d.node['sp'])
             ctx.check(from_start, R, k, loc, 'Close sets `%s` from a value derived from the MoveTo payload' % name,
                       'the Close arm sets the cursor `%s` to %s, which does not derive from the subpath start (MoveTo payload): a curve or line after Close starts at the wrong point' % (name, fmt(b, t)))
+    # the start record the Close arm returns to is re-seated by *every* MoveTo, on every path
+    starts = set()
+    for cur in sorted(curs):
+        for d in an.defs_of.get(cur, []):
+            if d.bb in region and d.kind == 'assign' and not d.partial:
+                t = an.def_term(d)
+                if t[0] in ('phi', 'rec') and (t[0] == 'rec' or t[1] != cur):
+                    starts.add(t[1] if t[0] == 'phi' else an.defs[t[1]].local)
+    if 'MoveTo' in m.arms and starts:
+        mregion = arm_region(an.cfg, m.bb, m.arms['MoveTo'])
+        stop = an.cfg.ipdom(m.bb)
+        for st in sorted(starts):
+            blocks = set()
+            for d in an.defs_of.get(st, []):
+                if d.bb in mregion and d.kind == 'assign' and not d.partial:
+                    t = an.def_term(d)
+                    if t[0] == 'agg' and t[3] == 'Some' and payload(t[4][0][1], 'MoveTo', 0):
+                        blocks.add(d.bb)
+            ok, _p = an.cfg.must_pass_through(m.arms['MoveTo'], blocks, exits=[stop] if stop is not None else None)
+            ctx.check(ok and bool(blocks), R, key + '|MoveTo re-seats the start', b.loc(), 'every MoveTo sets `%s` = Some(its point) on every path' % b.local_name(st),
+                      'the MoveTo arm does not set the subpath-start record `%s` to its own point on every path (e.g. only when there is no current point): Close of a later subpath returns to an earlier subpath\'s start' % b.local_name(st))
+    elif 'MoveTo' in m.arms:
+        ctx.fail(R, key + '|MoveTo re-seats the start', b.loc(), 'cannot identify the subpath-start record the Close arm returns to (fail closed)')
     # curve arms: from = cursor, else first control point
     for v, seg, first in (('QuadTo', 'QuadraticBezierSegment', 'ctrl'), ('CubicTo', 'CubicBezierSegment', 'ctrl1')):
         if v not in m.arms:
